@@ -62,7 +62,8 @@ def gen_schema(rng):
         else:
             r = {'kind': kind, 'sym': True, 'a': S(ea, coll=True)}
         rels.append(r)
-    return {'nent': nent, 'rels': rels}
+    # some entities get a composite primary key (k1, k2): references to them span two columns, link tables four
+    return {'nent': nent, 'rels': rels, 'cpk': [rng.random() < 0.3 for _ in range(nent)]}
 
 
 class World:
@@ -87,7 +88,11 @@ class World:
                 dicts[d['ent']][name] = attr
                 self.attrs[(i, sn == 'b')] = attr
                 self.names[(i, sn == 'b')] = name
+        self.cpk = list(schema.get('cpk') or [False] * nent)
         for e in range(nent):
+            if self.cpk[e]:
+                dicts[e]['k1'] = Required(int); dicts[e]['k2'] = Required(int)
+                dicts[e]['_indexes_'] = [core.Index(dicts[e]['k1'], dicts[e]['k2'], is_pk=True)]      # what PrimaryKey(k1, k2) in a class body does
             dicts[e]['tag'] = Required(int)
             dicts[e]['val'] = Optional(int)          # a plain column: pending UPDATEs around refused deletes
         self.classes = [type('E%d' % e, (db.Entity,), dicts[e]) for e in range(nent)]
@@ -131,6 +136,7 @@ class World:
                     try:
                         if op[0] == 'create':
                             e = op[1]; kw = {'tag': len(objs)}
+                            if self.cpk[e]: kw['k1'] = len(objs) // 3; kw['k2'] = len(objs)
                             ok = True
                             for key, r in op[2]:
                                 key = tuple(key); s = self.side(key); t = self.side(self.rev(key))['ent']
@@ -160,7 +166,7 @@ class World:
                 for i, o in enumerate(objs): o.tag = i
                 commit()
                 self.ents = [self.classes.index(type(o)) for o in objs]
-                self.pks = [o.id for o in objs]
+                self.pks = [o._pkval_ for o in objs]
         except Exception as e:
             self.populate_error = type(e).__name__
             return False
@@ -183,6 +189,13 @@ class World:
                 out.append({'ent': self.ents[i], 'alive': True, 'refs': refs, 'colls': colls})
         return out
 
+    def pk_cols(self, e):
+        return ['k1', 'k2'] if self.cpk[e] else ['id']
+    def load(self, i):
+        """the object by primary key: found in the identity map without a query when the session already has it"""
+        e = self.ents[i]
+        return self.classes[e].get(**({'k1': self.pks[i][0], 'k2': self.pks[i][1]} if self.cpk[e] else {'id': self.pks[i]}))
+
     # ---- raw database
     def raw(self):
         """rows / FK columns / link rows through a raw connection, in model ids; plus `PRAGMA foreign_key_check` and explicit joins"""
@@ -194,8 +207,8 @@ class World:
             cur.execute('PRAGMA foreign_key_check'); res['fk_check'] = [list(map(str, r)) for r in cur.fetchall()]
             pk2id = []
             for e, cls in enumerate(self.classes):
-                cur.execute('SELECT "id", "tag" FROM "%s"' % cls._table_)
-                pk2id.append({pk: tag for pk, tag in cur.fetchall()})
+                cur.execute('SELECT %s, "tag" FROM "%s"' % (', '.join('"%s"' % c for c in self.pk_cols(e)), cls._table_))
+                pk2id.append({tuple(r[:-1]): r[-1] for r in cur.fetchall()})
             for e, cls in enumerate(self.classes):
                 res['rows'] += sorted(pk2id[e].values())
                 cur.execute('SELECT "tag", "val" FROM "%s"' % cls._table_)
@@ -204,18 +217,22 @@ class World:
                     attr = self.attrs[key]
                     t = self.side(self.rev(key))['ent']
                     if not attr.is_collection and attr.columns:
-                        cur.execute('SELECT "id", "%s" FROM "%s"' % (attr.columns[0], cls._table_))
-                        for pk, v in cur.fetchall():
-                            if v is not None and v not in pk2id[t]:
-                                res['orphans'].append(['column', self.names[key], pk2id[e][pk], v]); tv = 'MISSING'
-                            else: tv = None if v is None else pk2id[t][v]
+                        npk = len(self.pk_cols(e))
+                        cur.execute('SELECT %s FROM "%s"' % (', '.join('"%s"' % c for c in self.pk_cols(e) + list(attr.columns)), cls._table_))
+                        for r in cur.fetchall():
+                            pk, v = tuple(r[:npk]), tuple(r[npk:])
+                            if all(x is None for x in v): tv = None
+                            elif v not in pk2id[t]:
+                                res['orphans'].append(['column', self.names[key], pk2id[e][pk], list(v)]); tv = 'MISSING'
+                            else: tv = pk2id[t][v]
                             res['cols'].append([pk2id[e][pk], key[0], key[1], tv])
                     elif attr.is_collection and attr.reverse.is_collection and not key[1]:
-                        owner_col = (attr.reverse_columns if attr.symmetric else attr.reverse.columns)[0]
-                        cur.execute('SELECT "%s", "%s" FROM "%s"' % (owner_col, attr.columns[0], attr.table))
-                        for p, q in cur.fetchall():
+                        owner_cols = list(attr.reverse_columns if attr.symmetric else attr.reverse.columns)
+                        cur.execute('SELECT %s FROM "%s"' % (', '.join('"%s"' % c for c in owner_cols + list(attr.columns)), attr.table))
+                        for r in cur.fetchall():
+                            p, q = tuple(r[:len(owner_cols)]), tuple(r[len(owner_cols):])
                             if p not in pk2id[e] or q not in pk2id[t]:
-                                res['orphans'].append(['link', self.names[key], p, q]); continue
+                                res['orphans'].append(['link', self.names[key], list(p), list(q)]); continue
                             res['links'].append([key[0], key[1], pk2id[e][p], pk2id[t][q]])
             rollback()
         res['rows'].sort(); res['cols'].sort(key=lambda c: (c[0], c[1], c[2])); res['links'].sort(); res['vals'].sort()
@@ -232,8 +249,9 @@ class World:
                 for r in cur.fetchall(): fks[(t.name, r[3])] = r[6]
             for key, attr in sorted(self.attrs.items()):
                 if not attr.is_collection and attr.columns:
-                    a = fks.get((attr.entity._table_, attr.columns[0]))
-                    out.append([key[0], key[1], None if a in (None, 'NO ACTION') else a])
+                    acts = sorted(set(str(fks.get((attr.entity._table_, c), 'NO FOREIGN KEY')) for c in attr.columns))
+                    a = acts[0] if len(acts) == 1 else '/'.join(acts)
+                    out.append([key[0], key[1], None if a == 'NO ACTION' else a])
                 elif attr.is_collection and attr.reverse.is_collection:
                     for c in list(attr.columns) + list(getattr(attr, 'reverse_columns', None) or []):
                         link.add(fks.get((attr.table, c)))
@@ -343,11 +361,11 @@ def session_snapshot(w, cache):
         if not isinstance(o, tuple(w.classes)): continue
         vals = {}
         for attr, v in (o._vals_ or {}).items():
-            if isinstance(v, core.SetData): vals[attr.name] = (bool(v.is_fully_loaded), frozenset(x.id if x.id is not None else id(x) for x in v))
-            elif isinstance(v, core.Entity): vals[attr.name] = ('obj', type(v).__name__, v.id)
+            if isinstance(v, core.SetData): vals[attr.name] = (bool(v.is_fully_loaded), frozenset(x._pkval_ if x._pkval_ is not None else id(x) for x in v))
+            elif isinstance(v, core.Entity): vals[attr.name] = ('obj', type(v).__name__, v._pkval_)
             else: vals[attr.name] = v
-        snap[(type(o).__name__, o.id)] = (o._status_, o._save_pos_, vals)
-    queue = [None if x is None else (type(x).__name__, x.id) for x in cache.objects_to_save]
+        snap[(type(o).__name__, o._pkval_)] = (o._status_, o._save_pos_, vals)
+    queue = [None if x is None else (type(x).__name__, x._pkval_) for x in cache.objects_to_save]
     return snap, queue
 
 
@@ -381,10 +399,10 @@ def run_deletes(w, state0, plan):
         loaded = {}
         def get(i):
             if i >= len(w.ents): return None          # plan of a shrinking candidate that lost the object
-            if i not in loaded: loaded[i] = w.classes[w.ents[i]].get(id=w.pks[i])
+            if i not in loaded: loaded[i] = w.load(i)
             return loaded[i]
         ident = {(w.classes[e].__name__, pk): i for i, (e, pk) in enumerate(zip(w.ents, w.pks))}
-        def mid(o): return ident.get((type(o).__name__, o.id))
+        def mid(o): return ident.get((type(o).__name__, o._pkval_))
         def deleted_now():
             return sorted(mid(o) for o in list(cache.objects) if isinstance(o, tuple(w.classes)) and o._status_ in DEL)
         for st in plan:
@@ -430,7 +448,7 @@ def run_deletes(w, state0, plan):
                     if bad:
                         # was the deleted object fully known to the session before the call, or a stub (primary key only)?
                         rname = attr.reverse.name
-                        stub = any((type(x).__name__, x.id) not in before[0] or rname not in before[0][(type(x).__name__, x.id)][2] for x in bad)
+                        stub = any((type(x).__name__, x._pkval_) not in before[0] or rname not in before[0][(type(x).__name__, x._pkval_)][2] for x in bad)
                         dangling.append([mid(o), attr.name, [mid(x) for x in bad], 'deleted-object-was-not-loaded' if stub else 'deleted-object-was-loaded'])
             steps.append({'err': err, 'missing': target_missing, 'dead': deleted_now(), 'diff': session_diff(before, after) if err else None,
                           'dangling': dangling})
@@ -694,7 +712,7 @@ def shrink(ctx, schema, prog, plan, key):
             if same(schema, cand, plan): prog = cand; changed = True
         for i in range(len(schema['rels']) - 1, -1, -1):
             if len(schema['rels']) == 1: break
-            s2 = {'nent': schema['nent'], 'rels': schema['rels'][:i] + schema['rels'][i + 1:]}
+            s2 = dict(schema, rels=schema['rels'][:i] + schema['rels'][i + 1:])
             def fix(k): return [k[0] - 1 if k[0] > i else k[0], k[1]]
             p2 = [[op[0], op[1], [[fix(k), r] for k, r in op[2] if k[0] != i]] if op[0] == 'create' else op for op in prog]
             if same(s2, p2, plan): schema, prog = s2, p2; changed = True; break
@@ -787,7 +805,7 @@ def gen_refusal_case(rng):
     for r in rels[2:]:
         for sn in ('a', 'b'):
             if sn in r: r[sn]['ent'] %= nent
-    schema = {'nent': nent, 'rels': rels}
+    schema = {'nent': nent, 'rels': rels, 'cpk': [rng.random() < 0.3 for _ in range(nent)]}
     prog = [['create', 0, []], ['flush']]
     nk = 1 if casc_rel['kind'] == 'o2o' else rng.choice([1, 2, 3])
     nd = 1 if block_rel['kind'] == 'o2o' else rng.choice([1, 1, 2])
@@ -864,14 +882,14 @@ def ondelete_tie(ctx, w):
     JOBS.append(({'op': 'ondelete', 'schema': w.model_schema}, ev))
 
 
-def bulk_case(ctx, rng, schema, prog):
+def bulk_case(ctx, rng, schema, prog, fixed=None):
     """bulk DELETE statements on committed data: refusal and resulting rows vs dbDelete; oracle: no dangling reference, refusal changes nothing"""
     w, state0 = build(schema, prog)
     try:
         if state0 is None: return
         n = len(state0)
-        stmts = []
-        for _ in range(rng.choice([1, 1, 2, 3])):
+        stmts = list(fixed or [])
+        for _ in range(0 if fixed else rng.choice([1, 1, 2, 3])):
             e = rng.randrange(schema['nent'])
             ids = sorted(set(rng.randrange(n) for _ in range(rng.choice([1, 1, 2, 3, n, n]))))
             if rng.random() < 0.5:           # aim at rows that are referenced
@@ -890,7 +908,7 @@ def bulk_case(ctx, rng, schema, prog):
             try:
                 with db_session:
                     E = w.classes[e]
-                    if rng.random() < 0.5: cnt = select(x for x in E if x.tag in ids).delete(bulk=True)
+                    if rng is None or rng.random() < 0.5: cnt = select(x for x in E if x.tag in ids).delete(bulk=True)
                     else: cnt = E.select(lambda x: x.tag in ids).delete(bulk=True)
             except Exception as ex:
                 err = type(ex).__name__
@@ -981,6 +999,14 @@ R_PENDING = {     # regression input: a cascade child with a pending UPDATE at o
     'prog': [['create', 0, []], ['flush'], ['create', 1, [[[0, True], 0]]], ['flush'], ['create', 2, [[[1, True], 0]]], ['flush']],
     'plan': [['load', [0, 1, 2]], ['mod', 1, 7], ['obj', 0]]}
 REGRESSIONS = [('refused-delete-keeps-pending-update', R_PENDING)]
+R_BULK_CPK = {    # regression input: bulk delete of parents with a composite primary key; Required dependents (default cascade -> ON DELETE
+                  # CASCADE) and Optional dependents (-> SET NULL) reference them through two-column foreign keys
+    'schema': {'nent': 3, 'cpk': [True, False, False],
+               'rels': [{'kind': 'm2o', 'sym': False, 'a': S(0, coll=True), 'b': S(1, req=True)},
+                        {'kind': 'm2o', 'sym': False, 'a': S(0, coll=True), 'b': S(2)}]},
+    'prog': [['create', 0, []], ['flush'], ['create', 0, []], ['flush'], ['create', 1, [[[0, True], 0]]], ['flush'], ['create', 1, [[[0, True], 1]]], ['flush'],
+             ['create', 2, [[[1, True], 0]]], ['flush'], ['create', 2, [[[1, True], 1]]], ['flush']],
+    'bulk': [[0, [0]]]}
 WITNESSES = [('stub-delete-stale-collection', W_STUB), ('cascade-cycle-one-to-one', W_CYCLE_O2O), ('cascade-cycle-self-parent', W_CYCLE_SELF), ('required-one-to-one-cascade', W_REQ_O2O)]
 
 
@@ -990,6 +1016,8 @@ def witnesses(ctx):
         v = check_history(ctx, wi['schema'], wi['prog'], wi['plan'])
         if v is not None: report(ctx, wi['schema'], wi['prog'], wi['plan'], v)
         else: ctx.count('regression-input-passes:' + name)
+    ctx.case({'regression': 'bulk-delete-composite-pk-parent'}, nontrivial=True, kind='regression')
+    bulk_case(ctx, None, R_BULK_CPK['schema'], R_BULK_CPK['prog'], fixed=R_BULK_CPK['bulk'])
     for name, wi in WITNESSES:
         ctx.case({'witness': name}, nontrivial=True, kind='witness')
         v = check_history(ctx, wi['schema'], wi['prog'], wi['plan'])
